@@ -37,6 +37,7 @@ type c39cfg struct {
 	thr     []c39thr
 	lua     bool
 	preset  bool   // the key already holds a value
+	replypt bool   // scheduling point between the server executing a command and its reply reaching the caller
 	event   string // "" | err (loader invocation #1 fails) | del (external DEL of the key, deviation) | lose | close (thread 0's client dies inside its loader)
 	p       int
 	tier    int
@@ -74,6 +75,7 @@ func c39body(c c39cfg) func(x *vsched.Exec) {
 			ca, err := NewClient(ClientOption{
 				ClientBuilder: func(o rueidis.ClientOption) (rueidis.Client, error) {
 					cl := rueidis.NewVerifSimClient(srv, o)
+					cl.ReplyPoint = c.replypt
 					cl.StartReader("reader" + strconv.Itoa(idx))
 					sims = append(sims, cl)
 					return cl, nil
@@ -331,6 +333,8 @@ func c39cfgs() []c39cfg {
 		{name: "solo-get-get", clients: 1, thr: []c39thr{{0, 2}}, p: 2},
 		{name: "2clients-get-get", clients: 2, thr: two, p: 2},
 		{name: "1client-get-get", clients: 1, thr: []c39thr{{0, 0}, {0, 0}}, p: 2},
+		{name: "2clients-get-get-replypt", clients: 2, thr: two, replypt: true, p: 1},
+		{name: "2clients-get-get-del-replypt", clients: 2, thr: two, event: "del", replypt: true, p: 1},
 		{name: "2clients-get-get-lua", clients: 2, thr: two, lua: true, p: 2},
 		{name: "2clients-get-get-err", clients: 2, thr: []c39thr{{0, 2}, {1, 0}}, event: "err", p: 2},
 		{name: "1client-get-get-err", clients: 1, thr: []c39thr{{0, 0}, {0, 0}}, event: "err", p: 2},
